@@ -55,6 +55,8 @@ def expr_to_nlgen(e):
     k = e["k"]
     if k == "n":
         return ["n", e["v"]]
+    if k == "h":                       # half-integer constant v2/2
+        return ["n", e["v2"] / 2.0]
     if k == "v":
         return ["v", e["i"]]
     if k == "d":
@@ -97,7 +99,7 @@ def remap_expr(e, perm):
     k = e["k"]
     if k == "v":
         return {"k": "v", "i": perm[e["i"]]}
-    if k in ("n", "d"):
+    if k in ("n", "d", "h"):
         return dict(e)
     r = dict(e)
     r["a"] = [remap_expr(a, perm) for a in e["a"]]
@@ -149,8 +151,16 @@ def model_exprs(m):
             yield d["e"]
 
 
+def has_half(e):
+    if e["k"] == "h":
+        return True
+    if e["k"] in ("o", "pl"):
+        return any(has_half(a) for a in e["a"])
+    return False
+
+
 def choose_D(m):
-    return 2 if any(has_op(e, {3}) for e in model_exprs(m)) else 1
+    return 2 if any(has_op(e, {3}) or has_half(e) for e in model_exprs(m)) else 1
 
 
 # ---------------------------------------------------------------- generator model -> FlatSem NL record
@@ -159,6 +169,9 @@ def scale_expr(e, D, unscaled=False):
     k = e["k"]
     if k == "n":
         return {"k": "n", "v": e["v"] if unscaled else e["v"] * D}
+    if k == "h":
+        assert D % 2 == 0 and not unscaled
+        return {"k": "n", "v": e["v2"] * D // 2}
     if k in ("v", "d"):
         return dict(e)
     if k == "pl":
@@ -252,7 +265,14 @@ def m_con(ev, D, vars_):
             r["params"] = []
         else:
             # parameters that are plain numbers (exponent, cone scalings) vs. values (numberof's k)
-            if ev["type"] in ("PowConstraint", "QuadraticConeConstraint", "RotatedQuadraticConeConstraint"):
+            if ev["type"] in ("QuadraticConeConstraint", "RotatedQuadraticConeConstraint"):
+                # the cone is over the scaled arguments c_j * x_j; a common positive factor of all c_j does not
+                # change it (both sides of the defining inequality scale by its square): make them integers
+                sc = next((f for f in (1, 2, 4, 8, 16) if all(abs(p_ * f - round(p_ * f)) < 1e-9 for p_ in d["params"])), None)
+                if sc is None:
+                    raise NonGrid("cone scaling")
+                r["params"] = [pair(p_ * sc, 1) for p_ in d["params"]]
+            elif ev["type"] == "PowConstraint":
                 r["params"] = [pair(p, 1) for p in d["params"]]
             else:
                 r["params"] = [pair(p, D) for p in d["params"]]
